@@ -15,6 +15,15 @@ def bloom_hasher_keys(crate, K=3):
     res.functions = ["Bloom::hashers"]
     res.bounds = "k <= %d hashers" % K
     ex = P.mk_executor(crate, cap=K + 1, loop_bound=K + 2, inline=[])
+
+    def call_hook(ex_, st_, cname, args, dty):
+        if cname == "AHasher::new_with_keys":
+            h = Obj(dty)
+            h.fields[("g", "key0")] = args[0]
+            h.fields[("g", "key1")] = args[1]
+            return [(h, None)]
+        return None
+    ex.call_hook = call_hook
     st = State()
     k = z3.BitVec("k", 64)
     st.pc.append(z3.ULE(k, BV64(K)))
@@ -28,28 +37,28 @@ def bloom_hasher_keys(crate, K=3):
             if not P.prove(ex, res, o, z3.BoolVal(False), "no panic (%s)" % o.note):
                 break
             continue
-        mk = [e for e in o.events if e[0] == "call" and e[1] == "AHasher::new_with_keys"]
-        if not P.prove(ex, res, o, k == BV64(len(mk)), "exactly k hashers are created"):
+        v = o.result
+        if isinstance(v, Ref):
+            v = ex.read_path(o, v.cell, v.proj)
+        if not isinstance(v, VecV):
+            res.status = "inconclusive"; res.detail = "result is not a modelled slice"; break
+        if not P.prove(ex, res, o, v.len.t == k, "exactly k hashers are returned"):
             break
         bad = False
-        for i, e in enumerate(mk):
-            a, b = e[2][0].t, e[2][1].t
-            if not P.prove(ex, res, o, z3.And(a == z3.BitVecVal(i + 1, a.size()), b == z3.BitVecVal(i + 2, b.size())), "hasher %d is keyed with (%d, %d)" % (i, i + 1, i + 2)):
+        for i in range(K):
+            if not ex.feasible(o, z3.ULT(BV64(i), k)):
+                continue
+            e = v.elems[i]
+            a = e.fields.get(("g", "key0")) if isinstance(e, Obj) else None
+            b = e.fields.get(("g", "key1")) if isinstance(e, Obj) else None
+            if a is None or b is None:
+                res.status = "violated"; res.detail = "hasher %d was not built by AHasher::new_with_keys" % i; bad = True; break
+            if not P.prove(ex, res, o, z3.Implies(z3.ULT(BV64(i), k), z3.And(a.t == z3.BitVecVal(i + 1, a.t.size()), b.t == z3.BitVecVal(i + 2, b.t.size()))),
+                           "hasher %d is keyed with (%d, %d)" % (i, i + 1, i + 2)):
                 bad = True
                 break
         if bad:
             break
-        v = o.result
-        if isinstance(v, Ref):
-            v = ex.read_path(o, v.cell, v.proj)
-        if isinstance(v, VecV):
-            if not P.prove(ex, res, o, v.len.t == k, "k hashers returned"):
-                break
-            for i, e in enumerate(mk):
-                if not (isinstance(v.elems[i], Obj) and v.elems[i].oid == e[3].oid):
-                    res.status = "violated"; res.detail = "hashers are not returned in creation order"; bad = True; break
-            if bad:
-                break
         P.cover(ex, res, o, k == BV64(K), "k = %d" % K)
         P.cover(ex, res, o, k == BV64(0), "k = 0")
     return P.finish(ex, res, ["k = %d" % K, "k = 0"])
